@@ -816,6 +816,42 @@ fn comment_mutant(rng: &mut Rng, base: &str, opts: &MutOpts) -> (String, String)
 }
 
 // ------------------------------------------------------------------------------------------------
+// Synthetic list shapes. The repository corpus holds only a handful of one-element tuples, so layout mutants almost
+// never reach the places where a separator is MANDATORY (`(x,)`: without the comma it is a parenthesised expression).
+// This family writes small programs made of one-element tuple expressions in several contexts, with and without
+// comments behind the entry / its comma, in the layouts people write. The formatter regenerates list commas, so these
+// are exactly the inputs on which "optional trailing separator" and "mandatory separator" must not be confused.
+// (One-entry argument lists etc. with a trailing line comment are left out: genuine idempotence defect, see COMMENT_SITES.)
+fn synthetic_lists(rng: &mut Rng) -> String {
+    let exprs = ["17", "a + b", "foo(1, 2)", "x.y", "\"s\"", "(1, 2)", "g((3,))", "-1i32", "a && b", "v(0)", "|k: Int64|: Int64 { k }", "if c { 1 } else { 2 }"];
+    let mut s = String::from("fn main() {\n");
+    let n = 1 + rng.below(6);
+    for i in 0..n {
+        let e = *rng.pick(&exprs);
+        // line comments only: a trailing BLOCK comment behind a list item's comma is a documented defect of the
+        // pinned tree (comma-list printer vs trivia printer, see COMMENT_SITES)
+        let comment = match rng.below(4) {
+            0 => String::new(),
+            1 => format!(" // zq{}\n", i),
+            2 => format!("\n    // zq{}\n", i),
+            _ => format!(" // zq{} long long long long long long long long long comment\n", i),
+        };
+        let before = match rng.below(4) { 0 => "\n        ", 1 => " ", _ => "" };
+        let tuple = format!("({}{},{}    )", before, e, if comment.is_empty() { " ".to_string() } else { comment });
+        match rng.below(6) {
+            0 => s.push_str(&format!("    let t{} = {};\n", i, tuple)),
+            1 => s.push_str(&format!("    f({});\n", tuple)),
+            2 => s.push_str(&format!("    let t{} = {}.0;\n", i, tuple)),
+            3 => s.push_str(&format!("    g(1, {}, 2);\n", tuple)),
+            4 => s.push_str(&format!("    return {};\n", tuple)),
+            _ => s.push_str(&format!("    let t{}: (Int64,) = {};\n", i, tuple)),
+        }
+    }
+    s.push_str("}\n");
+    s
+}
+
+// ------------------------------------------------------------------------------------------------
 // Layout mutants: same code tokens, different layout/comments.
 
 fn layout_mutant(rng: &mut Rng, base: &str, opts: &MutOpts) -> (String, String) {
@@ -942,7 +978,9 @@ pub fn run(args: &Args) {
     for idx in args.indices() {
         let mut rng = Rng::new(args.seed, 0xc17, idx);
         // even indices: corpus file as is (walking the corpus); odd: layout mutant of a small file
-        let (text, family): (String, String) = if idx % 2 == 0 {
+        let (text, family): (String, String) = if idx % 32 == 31 && !opts.wide && !opts.measure {
+            (synthetic_lists(&mut rng), "synthetic-lists".into())
+        } else if idx % 2 == 0 {
             let i = ((idx / 2) as usize) % corpus.files.len();
             match corpus.read(i) {
                 Some(t) => (t, "corpus".into()),
